@@ -37,7 +37,8 @@ struct C04 : Scenario {
         c.steps = r.range(20, 80);
         c.interp = (mode == "relax" && r.chance(0.15)) ? 2 : r.pick(std::vector<long>{3, 3, 4, 4, 4});
         c.deriv = r.pick(std::vector<long>{3, 4});
-        c.linearRF = r.chance(0.8);
+        c.linearRF = r.chance(0.75);
+        // the sinusoidal model with a sizeable synchronous phase (low voltage): focusing ~ V cos(phi_s), phi_s up to ~30 degrees
         c.gap = 0;
         c.renorm = r.pick(std::vector<long>{0, 0, -1, 50});
         c.outstep = c.steps; c.saveps = 0;
@@ -49,8 +50,12 @@ struct C04 : Scenario {
         if (frac * delta * delta < 2e-3 && r.chance(0.7)) { c.grid = r.range(36, 52); delta = c.pssize / (c.grid - 1); }
         double e1 = std::min(std::max(frac * delta * delta, 2e-3), std::min(0.48 * delta * delta, 0.03));
         if (r.chance(0.3)) { c.shifty = r.chance(0.5) ? (double)r.range(-3, 3) : std::round(r.uniform(-3, 3) * 4) / 4; if (r.chance(0.5)) c.shiftx = (double)r.range(-2, 2); }
-        if (r.chance(0.15)) c.steps_per_rev = (double)c.steps * derive(c).fs / derive(c).f_rev * r.uniform(0.97, 1.03);   // non-integer steps per period
         if (r.chance(0.15)) c.fs = std::round(r.uniform(2e4, 8e4));
+        // relax mode only (without damping the longer bunch in the smaller bucket filaments, which is physics, not a defect), and only
+        // with the machine's own synchrotron frequency: a high given frequency at low voltage means a bunch tens of times longer, for
+        // which the sinusoidal potential is no longer harmonic over the bunch and the natural length is not 1
+        if (!c.linearRF && mode == "relax" && c.fs == 0 && r.chance(0.6)) c.VRF = std::round(r.loguniform(1e5, 6e5));
+        if (r.chance(0.15)) c.steps_per_rev = (double)c.steps * derive(c).fs / derive(c).f_rev * r.uniform(0.97, 1.03);   // non-integer steps per period (computed with the synchrotron frequency in effect)
         Derived d0 = derive(c);
         c.tdamp = 2.0 / (d0.fs * e1 * d0.steps);
         p.setd("e1", e1);
